@@ -79,6 +79,10 @@ CHECKS = {
          "For generated circuits (0-3 commitments, low-entropy committed secrets) on all curves and both backends, M proofs of the same witness are made in one process while the verif hook captures the wire values of each solve: no blinded element may repeat across proofs, Groth16 Ar/Bs must differ from alpha+sum(w_i A_i) / beta+sum(w_i B_i) (non-zero, pairwise distinct, r != s via pairings), commitments must differ from the unmasked Pedersen / KZG commitment, and with a known toxic value PLONK's L,R,O,Z commitments and claimed values must differ from the unblinded ones recomputed from the captured columns.",
          "Inequalities that hold for every draw of the prover randomness but a negligible set: absent blinding, a reused nonce or a zero mask are caught with certainty; weak but non-repeating randomness is invisible; under the statistical-ZK option only distinctness of the quotient shards is asserted.",
          "DESIGN.md §3 C20"),
+ "C18": ("metamorphic property-based testing of ceremony transcripts with byte-slot surgery (rapid, 7 typed curve adapters)",
+         "Generated ceremonies (circuit with 0-3 commitments, domain 2..64, 1-4 contributions per phase, every contribution passed through WriteTo/ReadFrom) on all 7 curves: honest chains and their prefixes must verify, give identical keys on re-verification, and the sealed keys must prove, verify and reject a wrong public input; chains with one serialized group element replaced (other element, stale value, independent chain, multiple, infinity, generator, bit flip), whole vectors hybridised, a secret rescaled consistently, challenges altered, contributions swapped / dropped / duplicated / spliced, or verified against other commons / another circuit must be rejected. Every slot kind of both phases is covered (table in the evidence).",
+         "The byte-slot layout is derived from the marshal code and validated by re-encoding; slice length prefixes are never edited (open finding F05); an emptied challenge is documented to be filled in by the verifier and nothing is asserted there.",
+         "DESIGN.md §3 C18"),
 }
 
 PENDING = {}
